@@ -691,6 +691,19 @@ func (fr *Frame) specCall(c *ECall, env *SpecEnv) Val {
 		}
 		v := argv(0)
 		return Val{S: fr.bv(st, fr.ptrTerm(v)), Typ: tInt}
+	case "deref":
+		// deref(p): the value a pointer to a scalar (boxed) value points to
+		if !need(1) {
+			break
+		}
+		pv := argv(0)
+		pt, ok := pv.Typ.Underlying().(*types.Pointer)
+		if !ok {
+			return fr.specErr("deref() of non-pointer")
+		}
+		h := heapBox(pt.Elem())
+		fc.regVar(h, arrSort(sortOf(pt.Elem())))
+		return Val{S: fc.rd(st, h, fr.ptrTerm(pv)), Typ: pt.Elem()}
 	case "in":
 		if !need(2) {
 			break
